@@ -40,6 +40,11 @@ for b in ("", "=", "#", "/", "\\"):
                         ATOM_GRID.append("[%s%s%s%s%s%sexpl]" % (b, iso, el, ch, h, q))
 
 
+LONG_UNITS = [("[Cexpl]",), ("[C@@Hexpl]", "[Branch1_1]", "[C]", "[Oexpl]"), ("[C]", "[C]", "[C]", "[Expl=Ring1]", "[Ring1]"),
+              ("[C]", "[Branch1]", "[Branch1_2]", "[F]", "[Cl]", "[Br]", "[I]", "[O]"), ("[N+expl]", "[Branch2_3]", "[C]", "[Branch1_1]", "[=O]"),
+              ("[C]", "[Expl/Ring1]", "[C]", "[/Cexpl]")]
+
+
 def plan(tier, seed):
     thorough = tier == "thorough"
     grid = [("mix", "default", 5 if thorough else 4), ("mix2", "default", 5 if thorough else 4),
@@ -57,6 +62,12 @@ def plan(tier, seed):
                                               "contexts '[C][C][C]' + X + d1 d2 d3 + '[O][N][F]' for index digits d in "
                                               "([C],[Ring1],[Branch1_1],[O])"})
     tasks.append(("LM-grid", ("lm",)))
+    ns = (1, 2, 10, 100, 255, 256, 257, 300, 1000, 3000) + ((10000,) if thorough else ())
+    scopes.append({"name": "long-legacy-strings", "repetitions": list(ns), "units": LONG_UNITS,
+                   "desc": "the number of legacy symbols per fragment / per string is unbounded: each unit repeated n times, as "
+                           "one fragment and as n fragments"})
+    for k in range(len(LONG_UNITS)):
+        tasks.append(("long-legacy-strings", ("long", k, ns)))
     scopes.append({"name": "atom-grid", "desc": "%d legacy atom spellings (bond x isotope x element x chirality x H x "
                                                 "charge) in contexts X, [C]X[C], [C][Branch1_1][C]X[O]" % len(ATOM_GRID)})
     for k in range(0, len(ATOM_GRID), 400):
@@ -131,6 +142,44 @@ def check(w, table, r):
     return got
 
 
+def check_long(w, table, r):
+    """clause (a) and the no-flag rejection on a long string (the model comparison is left to the short strings)"""
+    s = "".join(w)
+    r.evaluations += 1
+    r.states += 1
+    r.transitions += 1
+    case = {"selfies": s if len(s) < 400 else None, "tokens": list(w) if len(w) < 60 else None, "table": table,
+            "unit_times_n": ["".join(w[:8]), len(w)]}
+    got = out(s, compatible=True)
+    exp = out("".join(legacy.modern(x) for x in w))
+    ok = True
+    if got != exp:
+        ok = False
+        r.violation("compatible!=modernised", case, "string of %d symbols (%s...): compatible=True gives %r, the modernised string %r" % (
+            len(w), s[:60], str(got)[:80], str(exp)[:80]))
+    both = out(s, compatible=True, attribute=True)
+    if both[0] == "ok" and isinstance(both[1], tuple):
+        both = ("ok", both[1][0])
+    if both != got:
+        ok = False
+        r.violation("compatible+attribute!=compatible", case, "string of %d symbols (%s...)" % (len(w), s[:60]))
+    # without the flag: rejected exactly when the reference model reaches a legacy symbol as a rule (in index position it is digit 0)
+    from mc.oracles import refmodel
+    try:
+        refmodel.decode(w, table)
+        want = "ok"
+    except refmodel.Reject:
+        want = "DecoderError"
+    if out(s)[0] != want:
+        ok = False
+        r.violation("noflag:accepts-outside-grammar" if want != "ok" else "noflag:rejects-inside-grammar", case,
+                    "string of %d symbols (%s...): without the flag the decoder gives %s, the model %s" % (len(w), s[:60], out(s)[0], want))
+    if ok:
+        r.validated += 1
+        if got[0] == "ok":
+            r.nontrivial.add(h64(got[1]))
+
+
 def run(task):
     scope, arg = task
     r = Result()
@@ -163,6 +212,15 @@ def run(task):
                         check(head + (x, "[C]") + body + tail, table, r)
                         check(head + (x, "[Ring1]") + body + tail, table, r)
         r.sample({"scope": scope, "selfies": "[C][C][C][Branch2_3][Ring1][Branch1_1][O][O][N][F]"}, 1)
+    elif arg[0] == "long":
+        _, k, ns = arg
+        table = use_table("default")
+        u = LONG_UNITS[k]
+        for n in ns:
+            check_long(u * n, table, r)
+            if n <= 1000:
+                check_long(((u + (".",)) * n)[:-1], table, r)
+        r.sample({"scope": scope, "selfies": "".join(u) + " x n"}, 1)
     else:
         _, lo, hi = arg
         table = use_table("default")
